@@ -314,13 +314,13 @@ class Statement(object):
                 length = 1
                 for statement in statements[branch_index:this_index+1]:
                     length += statement.code_pkg.size
-                if self.instruction.is_short_branch and length > 129:
+                if (self.instruction.is_short_branch and length > 129) or length > 0x10000:
                     raise TranslationError("Branch target out of range", self)
                 self.code_pkg.additional = NumericValue(base_value - length, size_hint=size_hint)
             else:
                 for statement in statements[this_index+1:branch_index]:
                     length += statement.code_pkg.size
-                if self.instruction.is_short_branch and length > 127:
+                if (self.instruction.is_short_branch and length > 127) or length > 0xFFFF:
                     raise TranslationError("Branch target out of range", self)
                 self.code_pkg.additional = NumericValue(length, size_hint=size_hint)
             return
